@@ -167,6 +167,115 @@ Qed.
 End OneP.
 
 (* ------------------------------------------------------------------ *)
+(* Two indices: one block                                              *)
+(* ------------------------------------------------------------------ *)
+Section ShapesF.
+Context {F : Type} (K : Fops F).
+Lemma length_bdiag_repeat (T : list (list F)) M : length (bdiag K (repeat T M)) = M * length T.
+Proof. induction M as [|M IH]; [reflexivity|]. cbn [repeat bdiag]. rewrite app_length, !map_length, IH. lia. Qed.
+Lemma length_ident n : length (ident K n) = n.
+Proof. induction n as [|n IH]; [reflexivity|]. cbn [ident length]. now rewrite map_length, IH. Qed.
+(* T_s by shapes: M segments, n Cartesian functions *)
+Definition Ushape (sph : bool) (T : list (list F)) (M n : nat) : list (list F) :=
+  if sph then bdiag K (repeat T M) else ident K n.
+Lemma length_Ushape sph T M n : length (Ushape sph T M n) = if sph then M * length T else n.
+Proof. destruct sph; [apply length_bdiag_repeat | apply length_ident]. Qed.
+End ShapesF.
+
+Section TwoP.
+Context {F : Type} (K : Fops F).
+Context {A : Type} (azero : A) (aadd : A -> A -> A) (ascale : F -> A -> A).
+Context (P : A -> Prop).
+Hypothesis Pz : P azero.
+Hypothesis Pa : forall x y, P x -> P y -> P (aadd x y).
+Hypothesis Ps : forall t x, P x -> P (ascale t x).
+Hypothesis A0l : forall x, P x -> aadd azero x = x.
+Hypothesis A0r : forall x, P x -> aadd x azero = x.
+Hypothesis S0 : forall x, P x -> ascale (f0 K) x = azero.
+Hypothesis S1 : forall x, P x -> ascale (f1 K) x = x.
+
+Notation linA := (lin azero aadd ascale).
+Notation trA := (axis_tr azero aadd ascale).
+(* T on index 0 of a matrix whose rows have width w / T on index 1 *)
+Definition mat_left_w (w : nat) (T : list (list F)) (m : list (list A)) : list (list A) :=
+  lin (rzero azero w) (radd aadd) (rscale ascale) T m.
+Notation mat_right' := (mat_right azero aadd ascale).
+
+Lemma mat_left_is_w T m : mat_left azero aadd ascale T m = mat_left_w (length (hd [] m)) T m.
+Proof. reflexivity. Qed.
+
+(* shape hypothesis on one (M2, L2) slab of a normalised block *)
+Definition slab_ok (sph2 : bool) (T2 : list (list F)) (M2 n2 : nat) (slab : list (list A)) : Prop :=
+  ax_ok P sph2 T2 slab /\ length slab = M2 /\ length (concat slab) = n2.
+
+Lemma block2_core sph1 sph2 T1 T2 M2 n2 (b : list (list (list (list A)))) :
+  Forall (Forall (slab_ok sph2 T2 M2 n2)) b ->
+  (sph1 = true -> T1 <> [] /\ rect T1 /\ Forall (fun r => length r = ncols T1) b) ->
+  let U2 := Ushape K sph2 T2 M2 n2 in
+  axis_tr (rzero azero (length U2)) (radd aadd) (rscale ascale) sph1 T1 (map (map (trA sph2 T2)) b)
+  = mat_left_w (length U2) (Ushape K sph1 T1 (length b) (length (concat b)))
+      (mat_right' U2 (map (@concat A) (concat b))).
+Proof.
+  intros Hb H1 U2.
+  assert (Hin : map (map (trA sph2 T2)) b = map (map (fun slab => linA U2 (concat slab))) b).
+  { apply map_ext_in. intros r Hr. apply map_ext_in. intros slab Hs.
+    rewrite Forall_forall in Hb. specialize (Hb _ Hr). rewrite Forall_forall in Hb.
+    destruct (Hb _ Hs) as [Hok [E1 E2]].
+    rewrite (axis_tr_lin K azero aadd ascale P); auto. unfold Ush, U2, Ushape. now rewrite E1, E2. }
+  rewrite Hin. set (inner := map (map (fun slab => linA U2 (concat slab))) b).
+  rewrite (axis_tr_lin K (rzero azero (length U2)) (radd aadd) (rscale ascale) (Prow P (length U2))).
+  - unfold mat_left_w. f_equal.
+    + unfold Ush, Ushape, inner. rewrite map_length. rewrite <- concat_map, map_length. reflexivity.
+    + unfold inner. rewrite <- concat_map. unfold mat_right. now rewrite map_map.
+  - now apply Prow_zero.
+  - intros; now apply Prow_add.
+  - intros; now apply Prow_scale.
+  - intros; eapply row_A0l; eauto.
+  - intros; eapply row_A0r; eauto.
+  - intros; eapply (row_S0 K); eauto.
+  - intros; eapply (row_S1 K); eauto.
+  - split.
+    + unfold inner. apply Forall_forall. intros r Hr. apply in_map_iff in Hr. destruct Hr as [r0 [<- Hr0]].
+      apply Forall_forall. intros x Hx. apply in_map_iff in Hx. destruct Hx as [slab [<- Hs]].
+      rewrite Forall_forall in Hb. specialize (Hb _ Hr0). rewrite Forall_forall in Hb.
+      destruct (Hb _ Hs) as [[HP _] _].
+      split; [unfold lin; now rewrite map_length|].
+      apply (lin_P azero aadd ascale P); auto. now apply concat_P.
+    + intros Hs. destruct (H1 Hs) as [Hne [HT Hr]]. repeat split; auto.
+      unfold inner. apply Forall_forall. intros r Hr'. apply in_map_iff in Hr'. destruct Hr' as [r0 [<- Hr0]].
+      rewrite map_length. rewrite Forall_forall in Hr. now apply Hr.
+Qed.
+
+(* hypothesis on a block of shells (s1, s2) for the given types *)
+Definition block2_ok (sph1 sph2 : bool) (s1 s2 : @sh F) (blk : list (list (list (list A)))) : Prop :=
+  let b := normalise2 ascale (sh_n s1) (sh_n s2) blk in
+  Forall (Forall (slab_ok sph2 (sh_T s2) (length (sh_n s2)) (length (concat (sh_n s2))))) b /\
+  (sph1 = true -> sh_T s1 <> [] /\ rect (sh_T s1) /\ Forall (fun r => length r = ncols (sh_T s1)) b).
+
+(* T_s of shell s1 for a block with shells (s1, s2) *)
+Definition U_left (sph1 : bool) (s1 s2 : @sh F) (blk : list (list (list (list A)))) :=
+  let b := normalise2 ascale (sh_n s1) (sh_n s2) blk in
+  Ushape K sph1 (sh_T s1) (length b) (length (concat b)).
+Definition U_of (sph : bool) (s : @sh F) :=
+  Ushape K sph (sh_T s) (length (sh_n s)) (length (concat (sh_n s))).
+
+Lemma axis_width_U sph s : axis_width sph s = length (U_of sph s).
+Proof. unfold axis_width, U_of. rewrite length_Ushape. now destruct sph. Qed.
+
+(* per-block form of (a) for two indices *)
+Lemma block2_is_cart_transformed sph1 sph2 s1 s2 blk :
+  block2_ok sph1 sph2 s1 s2 blk ->
+  block2 azero aadd ascale sph1 sph2 s1 s2 blk
+  = mat_left_w (axis_width sph2 s2) (U_left sph1 s1 s2 blk)
+      (mat_right' (U_of sph2 s2) (block2 azero aadd ascale false false s1 s2 blk)).
+Proof.
+  intros [Hb H1]. unfold block2 at 1. rewrite axis_width_U. unfold r1add, r1scale, U_of.
+  rewrite (block2_core sph1 sph2 (sh_T s1) (sh_T s2) (length (sh_n s2)) (length (concat (sh_n s2)))); auto.
+  unfold U_left. f_equal. f_equal. unfold block2, axis_tr. rewrite <- concat_map. reflexivity.
+Qed.
+End TwoP.
+
+(* ------------------------------------------------------------------ *)
 (* Packaged hypotheses and the statements exported to Props/C09.v      *)
 (* ------------------------------------------------------------------ *)
 (* laws of the module of entries, relativised to the well-shaped entries P
